@@ -349,6 +349,8 @@ def wl_objects(ctx, rng, i):
                     "near_misses": [".".join(s) for _, s in near_misses(rng, jd, ji, tbl)[:6]], "entry_points": 14})
 
 
+# pure by their documentation: a sample of the calls is repeated in a fresh interpreter, in reverse order (stixmon/echo.py)
+ECHO = ['stix2.markings:get_markings', 'stix2.markings:is_marked']
 WORKLOADS = [
     Workload("objects", wl_objects, quick=lambda: len(CARRIERS) * 4, thorough=lambda: len(CARRIERS) * 300),
 ]
@@ -371,7 +373,7 @@ MANIFEST = {
     "text": ("For every generated object of every granular-marking-capable type, every address the independent path enumerator "
              "finds (including false/0/'' values, repeated list elements, paths into embedded objects and extensions) and a set "
              "of near misses is pushed through parse, the constructor and all six marking functions on object and dict forms; "
-             "the accept/refuse outcome must match the enumerator.  Exploration over generated objects, tens of thousands of decisions per run."),
+             "the accept/refuse outcome must match the enumerator.  Exploration over generated objects, tens of thousands of decisions per run. Echo monitor: a sample of the get_markings / is_marked calls is repeated in a fresh interpreter in reverse order and must answer alike."),
     "note": "trusts stixmon/oracles/paths.py; selectors outside the library's selector syntax and omitted-default properties are out of scope",
-    "technique": "runtime monitoring: accept/refuse events at 14 entry points judged by an independent path-enumeration oracle",
+    "technique": "runtime monitoring: accept/refuse events at 14 entry points judged by an independent path-enumeration oracle; echo monitor (pure calls repeated in a fresh interpreter)",
 }
